@@ -133,6 +133,17 @@ class Replayer:
             for z in self.cplx:
                 a, b = vals[z + "r"], vals[z + "i"]
                 cvals[z] = complex(a * math.cos(b), a * math.sin(b)) if polar[z] else complex(a, b)
+            # what the amplitude code reads: ONE shaped complex tf_pwa Variable whose components are the complex
+            # parameters of this model (a facade over the same manager: no variable is created)
+            varcall = {}
+            if self.cplx:
+                from tf_pwa.variable import Variable
+
+                fac = Variable.__new__(Variable)
+                fac.vm, fac.name, fac.shape, fac.cplx, fac.cp_effect = vm, "facade", [len(self.cplx)], True, False
+                fac.all_name_list = [z + c for z in self.cplx for c in "ri"]
+                got = [complex(x) for x in fac().numpy().reshape(-1)]
+                varcall = dict(zip(self.cplx, got))
             return {
                 "vals": vals,
                 "reads": reads,
@@ -141,6 +152,7 @@ class Replayer:
                 "classes": frozenset(classes),
                 "cls_of": {m: c for c in classes for m in c},
                 "cvals": cvals,
+                "varcall": varcall,
                 "bnd": set(vm.bnd_dic),
                 "mask": dict(vm.mask_vars),
                 "same": [list(g) for g in vm.same_list],
@@ -316,6 +328,14 @@ class Replayer:
             for n in names:
                 if abs(before["vals"][n] - after["vals"][n]) > TOL or abs(before["reads"][n] - after["reads"][n]) > TOL:
                     out.append(("ReadWriteIdentity", "%s: %r -> %r" % (n, before["vals"][n], after["vals"][n])))
+        # O5' the value a (shaped) complex Variable hands to the amplitude is the complex value of each component in
+        #     that component's own coordinate form (mask-aware reads)
+        for z in self.cplx:
+            a, b = after["reads"][z + "r"], after["reads"][z + "i"]
+            want = complex(a * math.cos(b), a * math.sin(b)) if after["polar"][z] else complex(a, b)
+            got = after.get("varcall", {}).get(z)
+            if got is not None and abs(got - want) > 1e-9 * max(1.0, abs(want)):
+                out.append(("ComplexPreserved", "Variable() gives %r for component %s whose stored complex value is %r" % (got, z, want)))
         # O5 coordinate changes preserve the complex value
         if coord:
             for z in self.cplx:
